@@ -2,7 +2,7 @@
 # try_seed_scratch.sh <ID> <mN> <tier> <props...> : runs the listed checks against the seed worktree /tmp/seed/<ID> with
 # patch <mN> applied, using a scratch copy of /verif whose harness points at that worktree. /repo is not touched.
 id=$1; m=$2; tier=$3; shift 3
-wt=/tmp/seed/$id; v=/tmp/vcopy-$id-$m
+wt=${WTROOT:-/tmp/seed}/$id; v=/tmp/vcopy-$(basename ${WTROOT:-seed})-$id-$m
 rm -rf $v; mkdir -p $v
 rsync -a --exclude .git --exclude .work --exclude evidence --exclude replays --exclude seeded /verif/ $v/
 sed -i "s|=> /repo|=> $wt|" $v/harness/go.mod
